@@ -159,7 +159,8 @@ def run_case(inp):
     if dp > ptol:
         V("positions", f"positions differ by {dp:.3g} (allowed {ptol:.3g}, format {fmt})")
     ang = _angle_between(back.rotator, m.rotator) if n else np.zeros(0)
-    atol = (2.0 * 10.0 ** (-prec)) if csv else 2e-6
+    # orientations are stored as float32 rotation vectors in every format (2e-6 rad), CSV rounds them further
+    atol = (2.0 * 10.0 ** (-prec) + 2e-6) if csv else 2e-6
     if np.max(ang, initial=0) > atol:
         V("orientations", f"orientations differ by {np.max(ang):.3g} rad (allowed {atol:.3g}, format {fmt}, "
                           f"angles {inp['angles']})")
@@ -170,7 +171,11 @@ def run_case(inp):
         for c in fa.columns:
             a, b = fa[c].to_list(), fb[c].to_list()
             if fa[c].dtype.is_float():
-                ok = all((x is None and y is None) or (x is not None and y is not None and abs(x - y) <= (ptol if csv else 0.0) + 1e-12)
+                # CSV: rounded to the requested number of decimals (float64 features are not limited by the
+                # single precision of the coordinates)
+                ftol = (0.5 * 10.0 ** (-prec) * 1.001) if csv else 0.0
+                ok = all((x is None and y is None) or (x is not None and y is not None
+                                                        and abs(x - y) <= ftol + 4e-16 * max(1.0, abs(x)))
                          for x, y in zip(a, b))
             else:
                 ok = a == b
@@ -188,7 +193,7 @@ def oracle(rng, thorough, deep=False, hints=None):
         cases.append(dict(n=int(rng.choice([1, 2, 5, 17, 40])), seed=int(rng.integers(0, 10 ** 6)), format=fmt,
                           angles=["generic", "near0", "nearpi"][it % 3], neg_axis=bool(it % 4 == 1),
                           pos_scale=float(rng.choice([1.0, 100.0, 3000.0])), features=bool(it % 5 != 4),
-                          precision=[None, 2, 5, 7][(it // 2) % 4] if fmt in (".csv", ".txt") else None,
+                          precision=[None, 2, 5, 7, 9, 12][(it // 2) % 6] if fmt in (".csv", ".txt") else None,
                           history=[[], ["materialise", "rotate_inplace"], ["head", "translate_inplace"],
                                    ["materialise", "append"], ["materialise", "rotate_inplace", "translate_inplace"]][it % 5]))
     viols, stats = [], {"by_format": {}, "samples": [{"oracle_case": c} for c in cases[:2]]}
